@@ -99,6 +99,7 @@ def attrOfStr : String → Except String AttrVal
   | "bool" => pure .bool | "list" => pure .list | "dict" => pure .dict
   | "bareType" => pure .bareType | "generic" => pure .generic | "other" => pure .other
   | "union" => pure .union
+  | "mapper" => pure .dict
   | s => throw s!"attr kind {s}"
 
 def entryOfJson (j : Json) : Except String SrcEntry := do
@@ -147,7 +148,8 @@ def classToJson (c : ClassDef) : Json :=
     ("required", strsJ (sortStr c.required)),
     ("constants", Json.arr (c.constants.map fun (n, v) => Json.arr #[.str n, valToJson v]).toArray),
     ("sigReq", strsJ (sortStr c.sig.req)), ("sigOpt", strsJ c.sig.opt), ("kwargs", .bool c.sig.kwargs),
-    ("ignoreNone", .bool c.ignoreNone), ("immutable", .bool c.immutable), ("addl", .bool c.addl)]
+    ("ignoreNone", .bool c.ignoreNone), ("immutable", .bool c.immutable), ("addl", .bool c.addl),
+    ("ownMappers", strsJ (sortStr c.ownMappers))]
 
 /-- the bridge's `FieldDecl.struct` of a class (Sem/DefineBridge.lean), with the parts `declToJson`
     does not print: field order, `immFields`, `defOrder`, `accepts` -/
